@@ -412,6 +412,12 @@ func init() {
 								}
 							}
 						}
+						if lf.ptr == "?" {
+							// the pointer has a defined type (type P *T): avo dereferences it but does not
+							// resolve its own address, so the assembly cannot load it
+							stats["leaf_behind_defined_pointer_type"]++
+							continue
+						}
 						if isRet {
 							rl = append(rl, lf)
 						} else {
